@@ -565,6 +565,35 @@ BUILT_PAIRS = [("t - u", "u - t"), ("t // 2", "2 // t"), ("2 * t", "3 * t"), ("t
                ("t ** 2", "2 ** t"), ("t if t > u else u", "u if t > u else t"), ("t + u", "t * u")]
 
 
+def long_chains() -> Tuple[int, List[Violation]]:
+    """Beyond the small scope: + and * chains of 5 ... 120 operands in a fixed family of rearrangements (left-associated, reversed,
+    rotated, ends swapped, folded from the right, two parenthesised halves, pairs) — one signature; one operand changed — another."""
+    viols: List[Violation] = []
+    n = 0
+    for op in ("+", "*"):
+        for k in (5, 8, 16, 31, 32, 33, 34, 40, 64, 100, 120):
+            terms = [f"x{i}" if i % 4 else f"(y{i} - {i})" for i in range(k)]
+            left = f" {op} ".join(terms)
+            right = terms[-1]
+            for t in reversed(terms[:-1]):
+                right = f"{t} {op} ({right})"
+            half = k // 2
+            pairs = f" {op} ".join(f"({terms[i]} {op} {terms[i + 1]})" for i in range(0, k - 1, 2)) + (f" {op} {terms[-1]}" if k % 2 else "")
+            forms = [left, f" {op} ".join(reversed(terms)), f" {op} ".join(terms[1:] + terms[:1]), f" {op} ".join([terms[-1]] + terms[1:-1] + [terms[0]]), right,
+                     f"({f' {op} '.join(terms[half:])}) {op} ({f' {op} '.join(terms[:half])})", pairs]
+            sigs = [impl_sig(f) for f in forms]
+            n += len(forms) + 1
+            for f, sg in zip(forms[1:], sigs[1:]):
+                if sg != sigs[0]:
+                    viols.append(Violation("ac-rearrangement-changes-signature", f"{k}-operand {op} chain: {left[:60]}... vs {f[:60]}...",
+                                           {"kind": "pair-ac", "a": left, "b": f, "vars": []}))
+                    break
+            changed = f" {op} ".join(terms[:-1] + ["z"])
+            if impl_sig(changed) == sigs[0]:
+                viols.append(Violation("unsound-signature", f"{k}-operand {op} chain: replacing the last operand keeps the signature", {"kind": "long-same-sig", "a": left, "b": changed}))
+    return n, viols
+
+
 def built_slice() -> Tuple[int, List[Violation]]:
     """The signature a BUILT sweep class reports and the values it produces belong together: after the caller edits the mapping it
     passed to the factory, the class still reports the signature of the expression it evaluates (equal signatures => equal values)."""
@@ -648,7 +677,10 @@ def check(tier: str, seed: int) -> Result:
         run_chains([2, 3, 4], stats, viols)
     nb, vb = built_slice()
     viols.extend(vb)
-    stats["evaluations"] += nb
+    nlc, vlc = long_chains()
+    viols.extend(vlc)
+    stats["long_chain_forms"] = nlc
+    stats["evaluations"] += nb + nlc
     stats["built_sweep_classes_checked"] = nb
     cov = {
         "evaluations": stats["evaluations"],
@@ -680,6 +712,8 @@ def replay(case) -> List[Violation]:
     def parse(t):
         return _from_ast(ast.parse(t, mode="eval").body)
 
+    if case["kind"] == "long-same-sig":
+        return [Violation("unsound-signature", "a chain and the same chain with another last operand share one signature", case)] if sa == sb else []
     if case["kind"] == "pair-ac":
         if sa != sb:
             return [Violation("ac-rearrangement-changes-signature", f"{a!r} vs {b!r}", case)]
